@@ -1,0 +1,308 @@
+//go:build verif
+
+package bttest
+
+// Contracts of the storage engines (area btstores): store_btree.go, store_leveldb*.go, instance_server.go.
+// Checked by /verif/govc. Comments only.
+
+// ---------------------------------------------------------------------------------------------
+// Serialisation helpers
+// ---------------------------------------------------------------------------------------------
+
+// ufs_rowKey(buf): the row key encoded in the wire bytes buf (see area_btstores.spec).
+
+// ufb_rowEncDesc(buf): the row encoded by buf has strictly descending cell timestamps in every column (rowDesc).
+// rowRep (the representation invariant the Rows interface promises for delivered rows) = rowOK + famSep + colSep
+// (fresh tree, from Unmarshal) + rowDesc (content: holds because every stored buffer encodes a rowDesc row).
+
+//@ func fromProto
+//@   property C17 C20
+//@   ensures rowOK(result) && fresh(result)
+//@   ensures famSep(result.Families) && colSep(result)
+//@   ensures ufb_rowEncDesc(buf) ==> rowDesc(result)
+//@   ensures bytesEq(result.Key, ufs_rowKey(buf))
+
+//@ func toProto
+//@   property C17 C20
+//@   requires r != nil
+//@   ensures bytesEq(ufs_rowKey(result), r.Key)
+//@   ensures old(rowDesc(r)) ==> ufb_rowEncDesc(result)
+
+// ---------------------------------------------------------------------------------------------
+// btree engine (store_btree.go)
+// ---------------------------------------------------------------------------------------------
+
+// An item of the tree is a protoItem whose buf encodes a row with that key.
+//@ spec itemOK(i btree.Item) bool = typeis(i, protoItem) && bytesEq(ufs_rowKey(as(i, protoItem).buf), as(i, protoItem).key) && ufb_rowEncDesc(as(i, protoItem).buf)
+
+//@ typeinv nonnil btreeRows.tree
+
+//@ func (bi protoItem) Less
+//@   property C17
+//@   pure
+//@   requires typeis(i, protoItem)
+//@   ensures result == bytesLess(bi.key, as(i, protoItem).key)
+
+//@ func (b btreeRows) key
+//@   property C17
+//@   ensures bytesEq(result.key, key) && isnil(result.key) == isnil(key)
+
+// The Rows methods Get, ReplaceOrInsert, Delete, Clear, Close of btreeRows and the Storage methods Open and
+// SetTableMeta of BtreeStorage have no contract of their own here: govc verifies each of them against the contract
+// of the interface method it implements (/verif/contracts/trusted/bttest_ifaces.spec; "behavioural subtyping"),
+// which is exactly what C17 asks for.
+//
+// Scans: the closure built by adaptIterator (contract below) passes the iterator exactly fromProto(item.buf), which
+// is rowRep and fresh by fromProto's contract and itemOK, and returns exactly what the iterator returned, so the
+// tree's stop-on-false (assumed, area_btstores.spec) becomes the Rows stop-on-false.
+
+// C17, range bounds: ghost trace of library scans (area_btstores.spec). Scan number n covers the keys k with
+// ufs_scanStart(n) <= k (and k < ufs_scanLimit(n) iff ufb_scanHasLimit(n)). The four scan methods of BOTH engines
+// are verified against the same four postconditions below: one library scan with the bounds [greaterOrEqual,
+// lessThan). They are conditional on a non-nil lessThan: for a nil lessThan the engines differ (see report).
+//@ ghostvar scanOps int
+//@ spec scanAll(n int) bool = ufs_scanStart(n) == "" && !ufb_scanHasLimit(n)
+//@ spec scanFrom(n int, ge []byte) bool = bytesEq(ufs_scanStart(n), ge) && !ufb_scanHasLimit(n)
+//@ spec scanUpTo(n int, lt []byte) bool = ufs_scanStart(n) == "" && (!isnil(lt) ==> ufb_scanHasLimit(n) && bytesEq(ufs_scanLimit(n), lt))
+//@ spec scanRange(n int, ge []byte, lt []byte) bool = bytesEq(ufs_scanStart(n), ge) && (!isnil(lt) ==> ufb_scanHasLimit(n) && bytesEq(ufs_scanLimit(n), lt))
+
+//@ func (b btreeRows) Ascend
+//@   property C17 C01 C06 C20
+//@   requires iterator != nil
+//@   modifies ghost(scanOps)
+//@   callback iterator assume rowRep(arg0) && fresh(arg0)
+//@   ensures scanAll(old(scanOps) + 1)
+
+//@ func (b btreeRows) AscendRange
+//@   property C17 C01 C06 C20
+//@   requires iterator != nil
+//@   modifies ghost(scanOps)
+//@   callback iterator assume rowRep(arg0) && fresh(arg0)
+//@   ensures scanRange(old(scanOps) + 1, greaterOrEqual, lessThan)
+
+//@ func (b btreeRows) AscendLessThan
+//@   property C17 C01 C06 C20
+//@   requires iterator != nil
+//@   modifies ghost(scanOps)
+//@   callback iterator assume rowRep(arg0) && fresh(arg0)
+//@   ensures scanUpTo(old(scanOps) + 1, lessThan)
+
+//@ func (b btreeRows) AscendGreaterOrEqual
+//@   property C17 C01 C06 C20
+//@   requires iterator != nil
+//@   modifies ghost(scanOps)
+//@   callback iterator assume rowRep(arg0) && fresh(arg0)
+//@   ensures scanFrom(old(scanOps) + 1, greaterOrEqual)
+
+//@ func (b btreeRows) adaptIterator
+//@   property C17 C20
+//@   requires iterator != nil
+//@   ensures result != nil && fresh(result)
+
+// The adapter closure itself: called by the tree with an item of the tree (itemOK, the trusted callback assumption
+// of BTree.Ascend*); it decodes the item and calls the iterator (arbitrary effects).
+//@ func (b btreeRows) adaptIterator$1
+//@   property C17 C20
+//@   requires itemOK(i)
+//@   requires iterator != nil
+//@   modifies *
+
+//@ func (BtreeStorage) Create
+//@   property C17 C08 C14
+//@   ensures result != nil && typeis(result, btreeRows) && fresh(result)
+
+//@ func (BtreeStorage) GetTables
+//@   property C17 C08 C14
+//@   ensures len(result) == 0
+
+// ---------------------------------------------------------------------------------------------
+// leveldb engine (store_leveldb.go, store_leveldb_mem.go, store_leveldb_disk.go)
+// ---------------------------------------------------------------------------------------------
+
+// A leveldbRows always has an open DB and a re-open function (established by Create/Open, re-established by Clear).
+//@ typeinv nonnil leveldbRows.db
+//@ typeinv nonnil leveldbRows.newFunc
+
+// Get of *leveldbRows has no contract of its own: govc verifies it against the Rows interface contract
+// (bttest_ifaces.spec). The other methods repeat the interface clauses and add the C08 / C17 postconditions.
+// The panic(err) statements in all of them are reachable only if the leveldb library reports an error (closed DB,
+// I/O error, corruption).
+
+// ascendRange: one library scan with the bounds of rng; the iterator is called with fromProto(it.Value()) only
+// (rowRep and fresh by fromProto's contract: checked at the invocation as cb-assume) and the loop is left as soon as
+// it returns false (checked as cb-stop: the callback is not invoked again after it returned false).
+//@ func (rows *leveldbRows) ascendRange
+//@   property C17 C03 C20
+//@   requires iterator != nil
+//@   modifies *
+//@   callback iterator assume rowRep(arg0) && fresh(arg0)
+//@   callback iterator stops
+//@   ensures rng == nil ==> scanAll(old(scanOps) + 1)
+//@   ensures rng != nil ==> bytesEq(ufs_scanStart(old(scanOps) + 1), old(rng.Start)) && ufb_scanHasLimit(old(scanOps) + 1) == !isnil(old(rng.Limit))
+//@   ensures rng != nil && !isnil(old(rng.Limit)) ==> bytesEq(ufs_scanLimit(old(scanOps) + 1), old(rng.Limit))
+
+//@ func (rows *leveldbRows) Ascend
+//@   property C17 C01 C06 C20
+//@   requires iterator != nil
+//@   modifies *
+//@   callback iterator assume rowRep(arg0) && fresh(arg0)
+//@   ensures scanAll(old(scanOps) + 1)
+
+//@ func (rows *leveldbRows) AscendRange
+//@   property C17 C01 C06 C20
+//@   requires iterator != nil
+//@   modifies *
+//@   callback iterator assume rowRep(arg0) && fresh(arg0)
+//@   ensures scanRange(old(scanOps) + 1, greaterOrEqual, lessThan)
+
+//@ func (rows *leveldbRows) AscendLessThan
+//@   property C17 C01 C06 C20
+//@   requires iterator != nil
+//@   modifies *
+//@   callback iterator assume rowRep(arg0) && fresh(arg0)
+//@   ensures scanUpTo(old(scanOps) + 1, lessThan)
+
+//@ func (rows *leveldbRows) AscendGreaterOrEqual
+//@   property C17 C01 C06 C20
+//@   requires iterator != nil
+//@   modifies *
+//@   callback iterator assume rowRep(arg0) && fresh(arg0)
+//@   ensures scanFrom(old(scanOps) + 1, greaterOrEqual)
+
+// Clear closes the DB and replaces it by a new, empty one (newFunc(true)): the only modelled state it writes is
+// its own field db. (The Rows.Clear interface contract has no modifies clause; db is private to the engine.)
+//@ func (rows *leveldbRows) Clear
+//@   property C17 C01 C06 C08 C20
+//@   modifies rows.db, ghost(dbOps), ghost(fsOps)
+//@   ensures dbOps == old(dbOps) + 1 && uf_dbOpKind(dbOps) == 3 && ufb_dbOpOK(dbOps)
+
+// Ghost trace of leveldb write operations (see area_btstores.spec): operation n has kind uf_dbOpKind(n)
+// (1 Put, 2 Delete, 3 Close), key ufb_dbOpKey(n, k), success ufb_dbOpOK(n).
+//@ ghostvar dbOps int
+
+// C08: every row write is exactly one (journalled, atomic) leveldb Put / Delete of that row's key, and it has
+// succeeded when the method returns.
+//@ func (rows *leveldbRows) ReplaceOrInsert
+//@   property C17 C01 C06 C08 C20
+//@   modifies ghost(dbOps)
+//@   requires r != nil
+//@   requires rowDesc(r)
+//@   ensures dbOps == old(dbOps) + 1 && uf_dbOpKind(dbOps) == 1 && ufb_dbOpKey(dbOps, old(r.Key)) && ufb_dbOpOK(dbOps)
+
+//@ func (rows *leveldbRows) Delete
+//@   property C17 C01 C06 C08 C20
+//@   modifies ghost(dbOps)
+//@   ensures dbOps == old(dbOps) + 1 && uf_dbOpKind(dbOps) == 2 && ufb_dbOpKey(dbOps, key) && ufb_dbOpOK(dbOps)
+
+//@ func (rows *leveldbRows) Close
+//@   property C17 C01 C06 C08 C20
+//@   modifies ghost(dbOps)
+//@   ensures dbOps == old(dbOps) + 1 && uf_dbOpKind(dbOps) == 3 && ufb_dbOpOK(dbOps)
+
+// ---- in-memory leveldb ----
+
+//@ func newMemDb
+//@   property C17 C20
+//@   ensures result != nil && fresh(result)
+
+//@ func (f LeveldbMemStorage) Create
+//@   property C17 C08 C14
+//@   ensures result != nil && typeis(result, *leveldbRows) && fresh(result)
+//@   ensures as(result, *leveldbRows).db != nil && fresh(as(result, *leveldbRows).db)
+
+//@ func (f LeveldbMemStorage) GetTables
+//@   property C17 C08 C14
+//@   ensures len(result) == 0
+
+// ---- on-disk leveldb (C08: persistence protocol) ----
+
+// Ghost trace of file-system operations (see area_btstores.spec): operation n (1-based, n <= fsOps) has kind
+// uf_fsOpKind(n) (1 MkdirAll, 2 WriteFile, 3 Rename, 4 RemoveAll, 5 leveldb.OpenFile), path ufs_fsOpPath(n),
+// rename target ufs_fsOpPath2(n), written data ufb_fsOpData(n, d).
+//@ ghostvar fsOps int
+
+// directory of a table's rows; its definition is stored next to it in tableDir + ".table.proto"
+//@ spec tableDir(root string, name string) string = ufs_pathJoin2(root, name)
+
+// errLog calls the user-supplied logger f.ErrLog, if any. That the logger does not touch emulator state is a declared
+// assumption ("typeinv purefunc LeveldbDiskStorage.ErrLog" in zz_verif_contracts.go); with it errLog modifies nothing,
+// which is what the Storage interface contracts (no modifies clause) need of SetTableMeta/GetTables/Create.
+//@ func (f LeveldbDiskStorage) errLog
+//@   property C08 C20
+
+// newDiskDb removes the directory exactly when nuke is set, then opens (creating if missing) the database.
+//@ func newDiskDb
+//@   property C08 C17 C20
+//@   modifies ghost(fsOps)
+//@   ensures result != nil && fresh(result)
+//@   ensures nuke ==> fsOps == old(fsOps) + 2 && uf_fsOpKind(old(fsOps) + 1) == 4 && ufs_fsOpPath(old(fsOps) + 1) == path
+//@   ensures !nuke ==> fsOps == old(fsOps) + 1
+//@   ensures nuke ==> ufb_fsOpOK(old(fsOps) + 1)   // C08/C17: a nuked (cleared / re-created) table is really empty when this returns
+//@   ensures uf_fsOpKind(fsOps) == 5 && ufs_fsOpPath(fsOps) == path
+
+// SetTableMeta: MkdirAll(dir); WriteFile(dir.table.proto.tmp, Marshal(tbl)); Rename(tmp, dir.table.proto), in
+// that order and nothing else; the final file is only ever replaced by the rename of a completely written file.
+// (The Storage.SetTableMeta interface contract has no "requires tbl != nil"; all callers pass a non-nil table.)
+// The first postcondition is what C08 needs of SetTableMeta (an acknowledged schema change is on disk); the others
+// describe the protocol the code follows on every path.
+//@ func (f LeveldbDiskStorage) SetTableMeta
+//@   property C08 C17 C14 C20
+//@   modifies ghost(fsOps)
+//@   requires tbl != nil
+//@   ensures fsOps == old(fsOps) + 3 && ufb_fsOpOK(fsOps - 1) && ufb_fsOpOK(fsOps)   // C08: when it returns, the definition is durable
+//@   ensures fsOps == old(fsOps) + 2 || fsOps == old(fsOps) + 3
+//@   ensures uf_fsOpKind(old(fsOps) + 1) == 1 && ufs_fsOpPath(old(fsOps) + 1) == tableDir(f.Root, old(tbl.Name))
+//@   ensures uf_fsOpKind(old(fsOps) + 2) == 2 && ufs_fsOpPath(old(fsOps) + 2) == ufs_pathClean(tableDir(f.Root, old(tbl.Name)) + ".table.proto.tmp")
+//@   ensures exists d []byte :: ufb_fsOpData(old(fsOps) + 2, d) && ufb_encodesTable(d, tbl)
+//@   ensures fsOps == old(fsOps) + 3 ==> uf_fsOpKind(fsOps) == 3 && ufs_fsOpPath(fsOps) == ufs_fsOpPath(old(fsOps) + 2)
+//@   ensures fsOps == old(fsOps) + 3 ==> ufs_fsOpPath2(fsOps) == ufs_pathClean(tableDir(f.Root, old(tbl.Name)) + ".table.proto")
+
+// Create persists the definition (SetTableMeta: 2 or 3 operations) and then opens the row database with
+// nuke == true: RemoveAll(dir) followed by OpenFile(dir).
+//@ func (f LeveldbDiskStorage) Create
+//@   property C08 C17 C14 C20
+//@   modifies ghost(fsOps)
+//@   requires tbl != nil
+//@   ensures result != nil && typeis(result, *leveldbRows) && fresh(result)
+//@   ensures as(result, *leveldbRows).db != nil && as(result, *leveldbRows).newFunc != nil
+//@   ensures fsOps == old(fsOps) + 4 || fsOps == old(fsOps) + 5
+//@   ensures uf_fsOpKind(old(fsOps) + 1) == 1 && uf_fsOpKind(old(fsOps) + 2) == 2
+//@   ensures uf_fsOpKind(fsOps - 1) == 4 && ufs_fsOpPath(fsOps - 1) == tableDir(f.Root, old(tbl.Name))
+//@   ensures uf_fsOpKind(fsOps) == 5 && ufs_fsOpPath(fsOps) == tableDir(f.Root, old(tbl.Name))
+
+// Open deletes nothing (nuke == false): its only file-system operation is opening the row database.
+//@ func (f LeveldbDiskStorage) Open
+//@   property C08 C17 C14 C20
+//@   modifies ghost(fsOps)
+//@   requires tbl != nil
+//@   ensures result != nil && typeis(result, *leveldbRows) && fresh(result)
+//@   ensures as(result, *leveldbRows).db != nil && as(result, *leveldbRows).newFunc != nil
+//@   ensures fsOps == old(fsOps) + 1 && uf_fsOpKind(fsOps) == 5 && ufs_fsOpPath(fsOps) == tableDir(f.Root, old(tbl.Name))
+
+// GetTables only reads the file system; every table returned is a non-nil, freshly decoded definition.
+//@ func (f LeveldbDiskStorage) GetTables
+//@   property C08 C17 C14 C20
+//@   ensures forall i :: 0 <= i < len(result) ==> result[i] != nil
+//@   ensures fsOps == old(fsOps)
+//@   callback $1 invariant forall i :: 0 <= i < len(ret) ==> ret[i] != nil
+//@   callback $1 invariant fsOps == old(fsOps)
+// frame of the walk callback: it only writes objects it allocates itself (the decoded table, the result slice)
+//@   callback $1 invariant frameOld(heap("F:adminpb.Table.AutomatedBackupConfig"), heap("F:adminpb.Table.ChangeStreamConfig"), heap("F:adminpb.Table.ClusterStates"), heap("F:adminpb.Table.ColumnFamilies"), heap("F:adminpb.Table.DeletionProtection"), heap("F:adminpb.Table.Granularity"), heap("F:adminpb.Table.Name"), heap("F:adminpb.Table.RestoreInfo"), heap("F:adminpb.Table.RowKeySchema"), heap("F:adminpb.Table.sizeCache"), heap("F:adminpb.Table.unknownFields"))
+//@   callback $1 invariant frameOld(heap("F:bigtablepb.Row.Families"), heap("F:bigtablepb.Row.Key"), heap("F:bigtablepb.Row.sizeCache"), heap("F:bigtablepb.Row.unknownFields"), heap("F:protoimpl.MessageState.atomicMessageInfo"), heap("T:*adminpb.Table"), heap("T:func()"), heap("T:int32"), heap("T:uint32"), heap("T:interface{}"))
+//@   callback $1 invariant cap(ret) == 0 || fresh(ret)
+
+// ---------------------------------------------------------------------------------------------
+// instance_server.go: the IAM methods answer with a well-formed gRPC error status and touch nothing (C20)
+// ---------------------------------------------------------------------------------------------
+
+//@ func (s *server) GetIamPolicy
+//@   property C20
+//@   ensures result0 == nil && result1 != nil && uf_grpcCode(result1) == codes.Unimplemented
+
+//@ func (s *server) SetIamPolicy
+//@   property C20
+//@   ensures result0 == nil && result1 != nil && uf_grpcCode(result1) == codes.Unimplemented
+
+//@ func (s *server) TestIamPermissions
+//@   property C20
+//@   ensures result0 == nil && result1 != nil && uf_grpcCode(result1) == codes.Unimplemented
